@@ -44,7 +44,9 @@ pub struct Arrangement {
     /// presence[f] = bit mask of the directories containing file f (f = 0:a, 1:b, 2:c)
     pub presence: Vec<u8>,
     /// 0: b declares its own symbol; 1: b uses a's symbol; 2: b includes a.inc;
-    /// 3: b has a syntax error; 4: b has a lexical error
+    /// 3: b has a syntax error; 4: b has a lexical error;
+    /// 5: as 0, and every directory holds a real file named `stdgates.inc` (a decoy that must
+    /// never be read: the standard library is built in); 6: as 5, the decoy has a syntax error
     pub b_kind: u8,
 }
 
@@ -55,7 +57,7 @@ fn content(f: usize, dir: usize, b_kind: u8) -> String {
     match f {
         0 => format!("int va = {};\nbit[2] ma;\n", 10 + dir),
         1 => match b_kind {
-            0 => format!("int vb = {};\n", 20 + dir),
+            0 | 5 | 6 => format!("int vb = {};\n", 20 + dir),
             1 => format!("int vb = {};\nint wb = va;\n", 20 + dir),
             3 => format!("int vb = ;\nint wb = {};\n", 20 + dir),
             4 => format!("int vb = 0b;\nint wb = {};\n", 20 + dir),
@@ -83,6 +85,7 @@ pub fn mains() -> Vec<(&'static str, &'static str)> {
         ("nested", "include \"c.inc\";\nint s = vc;\n"),
         ("bad_escape", "int pre = 1;\ninclude \"a\\q.inc\";\n"),
         ("no_path", "int pre = 1;\ninclude;\ninclude \"a.inc\";\n"),
+        ("stdgates_mid", "include \"a.inc\";\ninclude \"stdgates.inc\";\ninclude \"b.inc\";\nint s = vb;\nqubit q;\nh q;\n"),
         ("annotated", "int pre = 1;\n@note one\n@second\ninclude \"a.inc\";\nint post = 2;\n"),
         ("annotated_last", "int pre = 1;\n@note one\ninclude \"b.inc\";\n"),
     ]
@@ -125,6 +128,12 @@ impl Tree {
                 if mask & (1 << d) != 0 {
                     std::fs::write(root.join(DIRS[d]).join(FILES[f]), content(f, d, arr.b_kind))?;
                 }
+            }
+        }
+        if arr.b_kind >= 5 {
+            for d in 0..arr.ndirs {
+                let text = if arr.b_kind == 5 { format!("int decoy = {};\ngate h w {{ }}\n", 90 + d) } else { "int decoy = ;\n".to_string() };
+                std::fs::write(root.join(DIRS[d]).join("stdgates.inc"), text)?;
             }
         }
         Ok(Tree { root })
@@ -249,9 +258,9 @@ impl Configs {
                 presence.push((x % masks) as u8);
                 x /= masks;
             }
-            for b_kind in 0..5u8 {
-                // kinds 1 and 2 only matter when b is present somewhere
-                if b_kind > 0 && presence.get(1).copied().unwrap_or(0) == 0 {
+            for b_kind in 0..7u8 {
+                // kinds 1 to 4 only matter when b is present somewhere
+                if (1..=4).contains(&b_kind) && presence.get(1).copied().unwrap_or(0) == 0 {
                     continue;
                 }
                 out.push(Arrangement { ndirs: self.ndirs, presence: presence.clone(), b_kind });
@@ -326,7 +335,7 @@ impl Configs {
         expected(arr, tree, &main_text, effective.as_deref(), 0, &mut exp, true);
         // a syntax fault in the main text, or in an included file that is actually read, gates analysis
         let fault_in_main = mname == "bad_escape" || mname == "no_path";
-        let fault_in_b = arr.b_kind >= 3 && exp.spans.iter().any(|(p, _, _)| p.file_name().map(|n| n == "b.inc").unwrap_or(false));
+        let fault_in_b = (arr.b_kind == 3 || arr.b_kind == 4) && exp.spans.iter().any(|(p, _, _)| p.file_name().map(|n| n == "b.inc").unwrap_or(false));
         if fault_in_main || fault_in_b {
             ctx.outcome(fnv_mix(0x5f, (any_syn as u64) << 8 | program.stmts().len().min(9) as u64));
             if exp.multi {
